@@ -99,6 +99,7 @@ func runC04(r *engine.Run) {
 	domSameKey(r, "DOM-samekey")
 	errGuard(r, "ERR-guard", "ERR-dropped", funcsOfPkg(r, pkgUtil), 20)
 	domRecorded(r, "DOM-recorded")
+	chainStart(r, "DOM-recorded")
 	domMergeAll(r, "DOM-mergeall")
 	orderStamp(r, "ORDER-stamp")
 	domMerge(r)
